@@ -137,8 +137,9 @@ type BuildOpts struct {
 	SetLeaf func(m protoreflect.Message, leaf protoreflect.FieldDescriptor)
 	// Decorate, if set, is called for every message created along the path (e.g. to set an event type).
 	Decorate func(m protoreflect.Message, next protoreflect.FieldDescriptor)
-	// ListPadding puts an empty element in front of the element that carries the path in repeated message fields.
-	ListPadding bool
+	// Pad, if set, may return an element to put in front of the element that carries the path in a repeated
+	// message field (nil = no padding).
+	Pad func(f protoreflect.FieldDescriptor) protoreflect.Message
 }
 
 func newMessage(md protoreflect.MessageDescriptor) protoreflect.Message {
@@ -210,8 +211,10 @@ func buildInto(m protoreflect.Message, path Path, o BuildOpts) {
 		m.Mutable(f).Map().Set(key, protoreflect.ValueOfMessage(child))
 	case f.IsList():
 		l := m.Mutable(f).List()
-		if o.ListPadding {
-			l.Append(protoreflect.ValueOfMessage(newMessage(f.Message())))
+		if o.Pad != nil {
+			if pad := o.Pad(f); pad != nil {
+				l.Append(protoreflect.ValueOfMessage(pad))
+			}
 		}
 		child := newMessage(f.Message())
 		buildInto(child, path[1:], o)
@@ -380,6 +383,18 @@ func CanonicalizeBlobs(m proto.Message) error {
 // from the field path, message fields recursively (each type at most maxPerType times on a path), repeated
 // and map fields with one element, for each oneof the arm selected by pickArm (default: first).
 func Populate(md protoreflect.MessageDescriptor, maxPerType int, str func(path string, fd protoreflect.FieldDescriptor) string) proto.Message {
+	return PopulateCustom(md, maxPerType, str, nil)
+}
+
+// NewMessage returns a fresh message of the registered Go type for md.
+func NewMessage(md protoreflect.MessageDescriptor) protoreflect.Message { return newMessage(md) }
+
+// HistoryDescriptor is the descriptor of temporal.api.history.v1.History.
+func HistoryDescriptor() protoreflect.MessageDescriptor { return historyDescriptor() }
+
+// PopulateCustom is Populate with a hook that may supply the value of a field itself (return ok=true).
+func PopulateCustom(md protoreflect.MessageDescriptor, maxPerType int, str func(path string, fd protoreflect.FieldDescriptor) string,
+	custom func(fd protoreflect.FieldDescriptor, path string) (protoreflect.Value, bool)) proto.Message {
 	count := map[protoreflect.FullName]int{}
 	var fill func(m protoreflect.Message, path string)
 	scalar := func(fd protoreflect.FieldDescriptor, path string) protoreflect.Value {
@@ -430,6 +445,14 @@ func Populate(md protoreflect.MessageDescriptor, maxPerType int, str func(path s
 				seenOneof[od.FullName()] = true
 			}
 			p := path + "." + string(fd.Name())
+			if custom != nil {
+				if v, ok := custom(fd, p); ok {
+					if v.IsValid() {
+						m.Set(fd, v)
+					}
+					continue
+				}
+			}
 			isMsg := fd.Kind() == protoreflect.MessageKind || fd.Kind() == protoreflect.GroupKind
 			if isMsg && !fd.IsMap() {
 				sub := fd.Message()
